@@ -300,7 +300,14 @@ def jobs(ctx):
 def job(args):
     _k, tier, seed, name, desc, targets, reruns = args[:7]
     opts = args[7] if len(args) > 7 else {}
-    dr = Driver(name, desc, targets, reruns, **opts)
+    try:
+        dr = Driver(name, desc, targets, reruns, **opts)
+    except common.GraphMismatch as e:
+        return {'name': name, 'targets': targets, 'states': 0, 'transitions': 0, 'capped': False,
+                'violations': {'C02/task-graph-lacks-a-declared-algorithm': {
+                    'what': f'[{name}] {e}', 'count': 1,
+                    'replay': {'tier': 'store', 'engine': name, 'desc': desc, 'targets': targets, 'reruns': reruns,
+                               'opts': opts, 'history': []}}}}
     try:
         def build(hist, report=None):
             dr.reset()
